@@ -450,6 +450,7 @@ def explore(ctx: Ctx, deep: bool, search: bool = False):
     for c in corpus:
         ps = ProgSet(c["setup"], c["programs"], "corpus:" + c["file"])
         ps.fixed_scheds = c.get("schedules", [])
+        ps.free_runs = int(c.get("free", 0))
         sets.append(ps)
     fams = ["register", "regdt", "put", "assoc", "chain", "removal", "mix", "dimgroup"]
     nsets = (10 if search else (49 if deep else 21))
@@ -497,6 +498,9 @@ def explore(ctx: Ctx, deep: bool, search: bool = False):
         x = first.get(si)
         if not x or x.get("hang"):
             continue
+        for _ in range(getattr(ps, "free_runs", 0)):
+            jobs.append({"kind": "free", "setup": ps.setup, "programs": ps.progs})
+            meta.append((si, "free"))
         if not deep and ps.fam.startswith("corpus:"):
             continue        # quick tier: a corpus set runs its recorded schedules (round 1) only
         counts = [sum(1 for s in x["steps"] if s[0] == i) for i in range(len(ps.progs))]
